@@ -95,8 +95,11 @@ func (s *Server) InitializeHTTP() {
 	s.Handler = mux
 
 	mux.HandleFunc("GET /metadata", func(w http.ResponseWriter, r *http.Request) {
+		vhook("rlock-req", "cfg", &s.idpConfigMu)
 		s.idpConfigMu.RLock()
+		vhook("rlock-acq", "cfg", &s.idpConfigMu)
 		defer s.idpConfigMu.RUnlock()
+		defer vhook("runlock", "cfg", &s.idpConfigMu)
 		s.IDP.ServeMetadata(w, r)
 	})
 	mux.HandleFunc("/sso", func(w http.ResponseWriter, r *http.Request) {
